@@ -298,6 +298,10 @@ def run_start(arg):
         r.transitions.add((explorer.digest(k), explorer.digest(a), explorer.digest(nk)))
 
     res = B.bfs([()], build, actions, canon, on_state, depth, bisim=True, on_transition=on_transition)
+    if res["bisim_mismatches"]:
+        if not r.violations:
+            raise B.BisimulationError(res["bisim_mismatches"][0])
+        r.count("bisimulation_mismatches_explained_by_violations", len(res["bisim_mismatches"]))
     r.count("bfs_runs")
     r.count("histories", res["histories"])
     r.count("bisim_checked_states", res["bisim_checked"])
